@@ -10,6 +10,8 @@ vector semantics ("the round body acts on every lane separately"); everything in
 regenerated from `src/skinny128-parallel-vec128.c` on every run.
 -/
 import SkinnyVerif.Lemmas.Vec128
+import SkinnyVerif.Lemmas.Vec256
+import SkinnyVerif.Lemmas.Vec64
 import SkinnyVerif.Properties.C01
 
 namespace SkinnyVerif.Properties
@@ -89,6 +91,145 @@ theorem C07_vec128_spec (ks0 : KeySched 64) (hlen : 56 ≤ ks0.sched.length) (ke
   intro ks
   have h := C07_vec128_block ks input j hj blk hblk
   have c := C01_skinny128 .c32le ks0 hlen key blk hk j2 j3
+  exact ⟨h.1.trans c.2.1, h.2.trans c.2.2⟩
+
+/-! ## the 256-bit vector back end (`src/skinny128-parallel-vec256.c`): eight blocks per group -/
+
+abbrev Rows256 := BitVec 256 × BitVec 256 × BitVec 256 × BitVec 256
+
+def mapRows8 (f : Rows32 → Rows32) (rows : Rows256) : Rows256 :=
+  (packLanes 32 256 (fun j => (f (laneRows8 rows j)).1) 8, packLanes 32 256 (fun j => (f (laneRows8 rows j)).2.1) 8,
+   packLanes 32 256 (fun j => (f (laneRows8 rows j)).2.2.1) 8, packLanes 32 256 (fun j => (f (laneRows8 rows j)).2.2.2) 8)
+
+theorem laneRows8_mapRows8 (f : Rows32 → Rows32) (rows : Rows256) (j : Nat) (hj : j < 8) :
+    laneRows8 (mapRows8 f rows) j = f (laneRows8 rows j) := by
+  simp only [laneRows8, mapRows8, lane_packLanes 32 256 _ 8 j (by decide), hj, if_true]
+
+theorem laneRows8_fold (g : Rows32 → BitVec 64 → Rows32) (sched : List (BitVec 64)) (rows : Rows256) (j : Nat) (hj : j < 8) :
+    laneRows8 (sched.foldl (fun rws sk => mapRows8 (fun t => g t sk) rws) rows) j = sched.foldl g (laneRows8 rows j) := by
+  induction sched generalizing rows with
+  | nil => rfl
+  | cons sk rest ih => simp only [List.foldl_cons]; rw [ih, laneRows8_mapRows8 _ _ j hj]
+
+/-- `_skinny128_parallel_encrypt_vec256` on one group of eight blocks -/
+def vecEnc8 (sched : List (BitVec 64)) (input : BitVec 1024) : BitVec 1024 :=
+  let rows := sched.foldl (fun rws sk => mapRows8 (fun t => v256p_enc_round t.1 t.2.1 t.2.2.1 t.2.2.2 sk) rws) (v256p_enc_load input)
+  v256p_enc_store rows.1 rows.2.1 rows.2.2.1 rows.2.2.2
+
+def vecDec8 (sched : List (BitVec 64)) (input : BitVec 1024) : BitVec 1024 :=
+  let rows := sched.foldl (fun rws sk => mapRows8 (fun t => v256p_dec_round t.1 t.2.1 t.2.2.1 t.2.2.2 sk) rws) (v256p_dec_load input)
+  v256p_dec_store rows.1 rows.2.1 rows.2.2.1 rows.2.2.2
+
+theorem vecEnc8_block (sched : List (BitVec 64)) (input : BitVec 1024) (j : Nat) (hj : j < 8) :
+    (vecEnc8 sched input).extractLsb' (128 * j) 128 =
+      sched.foldl (fun st sk => skinny128_ecb_encrypt_round_32le st sk) (input.extractLsb' (128 * j) 128) := by
+  simp only [vecEnc8]
+  rw [v256p_enc_store_lane _ j hj, laneRows8_fold (fun t sk => v256p_enc_round t.1 t.2.1 t.2.2.1 t.2.2.2 sk) sched _ j hj,
+    v256p_enc_rounds_scalar, v256p_enc_load_lane input j hj]
+
+theorem vecDec8_block (sched : List (BitVec 64)) (input : BitVec 1024) (j : Nat) (hj : j < 8) :
+    (vecDec8 sched input).extractLsb' (128 * j) 128 =
+      sched.foldl (fun st sk => skinny128_ecb_decrypt_round_32le st sk) (input.extractLsb' (128 * j) 128) := by
+  simp only [vecDec8]
+  rw [v256p_dec_store_lane _ j hj, laneRows8_fold (fun t sk => v256p_dec_round t.1 t.2.1 t.2.2.1 t.2.2.2 sk) sched _ j hj,
+    v256p_dec_rounds_scalar, v256p_dec_load_lane input j hj]
+
+/-- **C07 for the 256-bit vector back end**: each of the eight blocks of a group is encrypted /
+decrypted exactly as `skinny128_ecb_encrypt` / `_decrypt` of the 32-bit configuration does -/
+theorem C07_vec256_block (ks : KeySched 64) (input : BitVec 1024) (j : Nat) (hj : j < 8) (blk : Bytes)
+    (hblk : image 128 blk = input.extractLsb' (128 * j) 128) :
+    bytesOf 16 ((vecEnc8 (schedUp ks) input).extractLsb' (128 * j) 128) = ecbEncrypt (ops128 .c32le) p128 ks blk ∧
+    bytesOf 16 ((vecDec8 (schedDown ks) input).extractLsb' (128 * j) 128) = ecbDecrypt (ops128 .c32le) p128 ks blk := by
+  have C := ops128Correct .c32le
+  constructor
+  · rw [vecEnc8_block _ _ j hj, schedUp, List.foldl_map, ← hblk]
+    simp only [ecbEncrypt, p128]
+    rw [C.encLoad, C.encStore]
+    rfl
+  · rw [vecDec8_block _ _ j hj, schedDown, List.foldl_map, ← hblk]
+    simp only [ecbDecrypt, p128]
+    rw [C.decLoad, C.decStore]
+    rfl
+
+theorem C07_vec256_spec (ks0 : KeySched 64) (hlen : 56 ≤ ks0.sched.length) (key : Bytes)
+    (hk : key.length = 16 ∨ key.length = 32 ∨ key.length = 48) (j2 j3 : BitVec 128)
+    (input : BitVec 1024) (j : Nat) (hj : j < 8) (blk : Bytes) (hblk : image 128 blk = input.extractLsb' (128 * j) 128) :
+    let ks := (setKey (ops128 .c32le) guards128 p128 ks0 (some key) key.length j2 j3).2
+    bytesOf 16 ((vecEnc8 (schedUp ks) input).extractLsb' (128 * j) 128) = encrypt128 key blk ∧
+    bytesOf 16 ((vecDec8 (schedDown ks) input).extractLsb' (128 * j) 128) = decrypt128 key blk := by
+  intro ks
+  have h := C07_vec256_block ks input j hj blk hblk
+  have c := C01_skinny128 .c32le ks0 hlen key blk hk j2 j3
+  exact ⟨h.1.trans c.2.1, h.2.trans c.2.2⟩
+
+/-! ## Skinny-64, 128-bit vector back end (`src/skinny64-parallel-vec128.c`): eight blocks per group, 16-bit lanes -/
+
+def mapRowsH (f : Rows16 → Rows16) (rows : Rows128) : Rows128 :=
+  (packLanes 16 128 (fun j => (f (laneRowsH rows j)).1) 8, packLanes 16 128 (fun j => (f (laneRowsH rows j)).2.1) 8,
+   packLanes 16 128 (fun j => (f (laneRowsH rows j)).2.2.1) 8, packLanes 16 128 (fun j => (f (laneRowsH rows j)).2.2.2) 8)
+
+theorem laneRowsH_mapRowsH (f : Rows16 → Rows16) (rows : Rows128) (j : Nat) (hj : j < 8) :
+    laneRowsH (mapRowsH f rows) j = f (laneRowsH rows j) := by
+  simp only [laneRowsH, mapRowsH, lane_packLanes 16 128 _ 8 j (by decide), hj, if_true]
+
+theorem laneRowsH_fold (g : Rows16 → BitVec 32 → Rows16) (sched : List (BitVec 32)) (rows : Rows128) (j : Nat) (hj : j < 8) :
+    laneRowsH (sched.foldl (fun rws sk => mapRowsH (fun t => g t sk) rws) rows) j = sched.foldl g (laneRowsH rows j) := by
+  induction sched generalizing rows with
+  | nil => rfl
+  | cons sk rest ih => simp only [List.foldl_cons]; rw [ih, laneRowsH_mapRowsH _ _ j hj]
+
+/-- `_skinny64_parallel_encrypt_vec128` on one group of eight blocks -/
+def vecEnc8h (sched : List (BitVec 32)) (input : BitVec 512) : BitVec 512 :=
+  let rows := sched.foldl (fun rws sk => mapRowsH (fun t => v64p_enc_round t.1 t.2.1 t.2.2.1 t.2.2.2 sk) rws) (v64p_enc_load input)
+  v64p_enc_store rows.1 rows.2.1 rows.2.2.1 rows.2.2.2
+
+def vecDec8h (sched : List (BitVec 32)) (input : BitVec 512) : BitVec 512 :=
+  let rows := sched.foldl (fun rws sk => mapRowsH (fun t => v64p_dec_round t.1 t.2.1 t.2.2.1 t.2.2.2 sk) rws) (v64p_dec_load input)
+  v64p_dec_store rows.1 rows.2.1 rows.2.2.1 rows.2.2.2
+
+theorem vecEnc8h_block (sched : List (BitVec 32)) (input : BitVec 512) (j : Nat) (hj : j < 8) :
+    (vecEnc8h sched input).extractLsb' (64 * j) 64 =
+      sched.foldl (fun st sk => skinny64_ecb_encrypt_round_32le st sk) (input.extractLsb' (64 * j) 64) := by
+  simp only [vecEnc8h]
+  rw [v64p_enc_store_lane _ j hj, laneRowsH_fold (fun t sk => v64p_enc_round t.1 t.2.1 t.2.2.1 t.2.2.2 sk) sched _ j hj,
+    v64p_enc_rounds_scalar, v64p_enc_load_lane input j hj]
+
+theorem vecDec8h_block (sched : List (BitVec 32)) (input : BitVec 512) (j : Nat) (hj : j < 8) :
+    (vecDec8h sched input).extractLsb' (64 * j) 64 =
+      sched.foldl (fun st sk => skinny64_ecb_decrypt_round_32le st sk) (input.extractLsb' (64 * j) 64) := by
+  simp only [vecDec8h]
+  rw [v64p_dec_store_lane _ j hj, laneRowsH_fold (fun t sk => v64p_dec_round t.1 t.2.1 t.2.2.1 t.2.2.2 sk) sched _ j hj,
+    v64p_dec_rounds_scalar, v64p_dec_load_lane input j hj]
+
+def schedUp64 (ks : KeySched 32) : List (BitVec 32) := (List.range ks.rounds).map (fun i => ks.sched.getD i 0)
+def schedDown64 (ks : KeySched 32) : List (BitVec 32) := (List.range ks.rounds).map (fun i => ks.sched.getD (ks.rounds - 1 - i) 0)
+
+/-- **C07 for the Skinny-64 vector back end**: each of the eight blocks of a group is encrypted /
+decrypted exactly as `skinny64_ecb_encrypt` / `_decrypt` of the 32-bit configuration does -/
+theorem C07_vec64_block (ks : KeySched 32) (input : BitVec 512) (j : Nat) (hj : j < 8) (blk : Bytes)
+    (hblk : image 64 blk = input.extractLsb' (64 * j) 64) :
+    bytesOf 8 ((vecEnc8h (schedUp64 ks) input).extractLsb' (64 * j) 64) = ecbEncrypt (ops64 .c32le) p64 ks blk ∧
+    bytesOf 8 ((vecDec8h (schedDown64 ks) input).extractLsb' (64 * j) 64) = ecbDecrypt (ops64 .c32le) p64 ks blk := by
+  have C := ops64Correct .c32le
+  constructor
+  · rw [vecEnc8h_block _ _ j hj, schedUp64, List.foldl_map, ← hblk]
+    simp only [ecbEncrypt, p64]
+    rw [C.encLoad, C.encStore]
+    rfl
+  · rw [vecDec8h_block _ _ j hj, schedDown64, List.foldl_map, ← hblk]
+    simp only [ecbDecrypt, p64]
+    rw [C.decLoad, C.decStore]
+    rfl
+
+theorem C07_vec64_spec (ks0 : KeySched 32) (hlen : 40 ≤ ks0.sched.length) (key : Bytes)
+    (hk : key.length = 8 ∨ key.length = 16 ∨ key.length = 24) (j2 j3 : BitVec 64)
+    (input : BitVec 512) (j : Nat) (hj : j < 8) (blk : Bytes) (hblk : image 64 blk = input.extractLsb' (64 * j) 64) :
+    let ks := (setKey (ops64 .c32le) guards64 p64 ks0 (some key) key.length j2 j3).2
+    bytesOf 8 ((vecEnc8h (schedUp64 ks) input).extractLsb' (64 * j) 64) = encrypt64 key blk ∧
+    bytesOf 8 ((vecDec8h (schedDown64 ks) input).extractLsb' (64 * j) 64) = decrypt64 key blk := by
+  intro ks
+  have h := C07_vec64_block ks input j hj blk hblk
+  have c := C01_skinny64 .c32le ks0 hlen key blk hk j2 j3
   exact ⟨h.1.trans c.2.1, h.2.trans c.2.2⟩
 
 end SkinnyVerif.Properties
